@@ -984,13 +984,19 @@ fn exec_scaffold(ops: &[Vec<&str>], obs: &mut Vec<String>) {
             return;
         }
     };
-    let doc = match (JP { s: &txt, i: 0 }).val() {
+    let mut jp = JP { s: &txt, i: 0 };
+    let doc = match jp.val() {
         Ok(d) => d,
         Err(e) => {
             obs.push(format!("D scaffold-bad-json {e}"));
             return;
         }
     };
+    // the file must be exactly one JSON document (nothing but white space after it)
+    if txt[jp.i.min(txt.len())..].iter().any(|b| !b.is_ascii_whitespace()) {
+        obs.push(format!("D scaffold-bad-json trailing bytes after the document ({} of {} bytes parsed)", jp.i, txt.len()));
+        return;
+    }
     let empty = Vec::new();
     let feats = doc.get("features").and_then(|f| f.arr()).unwrap_or(&empty);
     // (id, ring, bbox)
